@@ -1,6 +1,22 @@
-(* Proofs/PullDiff.v — C14: the Difference pull machine refines Difference._sweep of the list
-   model (Model/Sweeps.v dsweep / diff_sweep); with it the refinement theorem and bounded
-   termination for ALL operators (no "difference-free" side condition). *)
+(* Proofs/PullDiff.v — C14, continued.
+   1. diff_machine_refines       the Difference pull machine (dnext/dloop/dskipM, subtractors merged
+                                 by heapq.merge) over operand machines that refine lists yields exactly
+                                 diff_sweep (Model/Sweeps.v) of those lists
+      pull_eq_list_diff          hence the refinement of Proofs/PullInter.v for EVERY operator: the
+      pull_eq_list_slice_diff    "difference-free" side condition frag2 is gone (what remains, wfx,
+                                 is the modelling convention "an Intersection has >= 2 operands")
+   2. bounded_terminates_diff    bounded queries terminate, every operator
+   3. prefix_of_bounded_partial  islice(e[a:], n) = the first n items of every sufficiently long
+      prefix_of_bounded_explicit bounded query e[a:b] (same items, same source reads, same state),
+                                 for every expression without Complement; the side condition
+                                 (slice_horizon <= POS_INF: no unbounded item reached the clip) is
+      prefix_of_bounded_refuted  necessary for window ends below the sentinel.
+   4. next_mono / ptake_mono     the interpreter is monotone in its fuel; hence
+      bounded_take_is_list_prefix   [take] on a bounded slice, whatever its fuel, returns the first n
+                                 items of the list model (every operator), and
+      open_slice_is_list_prefix  islice(e[a:], n) = firstn n (lslice e a b) for all large b.
+   Not proved: 3 for expressions containing Complement (its machine carries the window end in its
+   state; experiments with vm_compute find no counterexample on recurring sources). *)
 From Coq Require Import Lia.
 From CG Require Import Model.Pull Proofs.PullP Proofs.PullRefine Proofs.PullInter.
 
@@ -920,6 +936,7 @@ Proof.
 Qed.
 
 End SwitchRun.
+Print Assumptions take_switch.
 
 (* ---- the sources: the window end only cuts a source off; every prefix survives a long
    enough window (for EVERY expression) *)
@@ -1118,6 +1135,34 @@ Qed.
 Definition slice_horizon (F : nat) (env : fenv) (e : pexpr) (a : Z) (n : nat) (c : cnts) : Z :=
   phor env (oenv_of (pand e PSolid) a None) F n (pslice e a None) c.
 
+(* explicit form: b may be any window end at or past the horizon of the open-ended run through
+   which the leaves show the same prefixes as they do through [a, +inf) *)
+Theorem prefix_of_bounded_explicit : forall F env e a n c outs fin m' c',
+  nsc e = true -> operands e <> [] ->
+  take F env (oenv_of (pand e PSolid) a None) n (pslice e a None) c = Some (outs, fin, m', c') ->
+  slice_horizon F env e a n c <= POS_INF ->
+  forall b, slice_horizon F env e a n c <= b ->
+    agree c' (oenv_of (pand e PSolid) a None) (oenv_of (pand e PSolid) a (Some b)) ->
+    take F env (oenv_of (pand e PSolid) a (Some b)) n (pslice e a (Some b)) c
+      = Some (outs, fin, toB b m', c').
+Proof.
+  intros F env e a n c outs fin m' c' Hn Hne H Hhor b Hb Hag. unfold slice_horizon in Hhor, Hb.
+  rewrite (pslice_shape e a None Hn) in H, Hhor, Hb.
+  set (masks := map pis_mask (operands e) ++ [true]) in *.
+  set (ms := map (fun s => compile s a None) (operands e)) in *.
+  assert (Hform : oform a (MInter masks IInit (map (fun m => (s0, m)) ms ++ [(s0, MOnce (Some (solo a)))]))).
+  { apply of_init.
+    - unfold ms. destruct (operands e); [congruence|discriminate].
+    - unfold ms, masks. rewrite map_length, <- (map_length pis_mask). apply emit_sel_solid.
+      destruct (operands e); [congruence|discriminate]. }
+  change (mkI (Some a) None Plain) with (solo a) in H, Hhor, Hb.
+  pose proof (take_switch env _ a F n c _ outs fin m' c' Hform H b Hb Hhor) as Hsw.
+  rewrite (pslice_shape e a (Some b) Hn). fold masks ms.
+  eapply pull_noninterference; [|exact Hag].
+  cbn [toB] in Hsw. rewrite swl_last in Hsw. exact Hsw.
+Qed.
+Print Assumptions prefix_of_bounded_explicit.
+
 (* C14, "yields exactly the first n results of a sufficiently long bounded query":
    for every expression built from recurring and stored leaves with | & - filter buffer
    (everything except Complement), if islice(e[a:], n) returns (outs, fin) after reading the
@@ -1125,7 +1170,18 @@ Definition slice_horizon (F : nat) (env : fenv) (e : pexpr) (a : Z) (n : nat) (c
    returns the same first n results, after reading exactly the same source prefixes, and is
    left in the same state (up to the end of the clip).  The side condition says that the
    overlap ends the clip looked at stay below the +infinity sentinel 2^63-2 (that is: no
-   unbounded events among the sources); the horizon is computable from the open-ended run. *)
+   unbounded events reached the clip); the horizon is computable from the open-ended run. *)
+(* FULL STATEMENT (not proved; no counterexample found by vm_compute on recurring sources):
+     forall F env e a n c outs fin m' c', wfx e = true ->
+       take F env (oenv_of (pand e PSolid) a None) n (pslice e a None) c = Some (outs, fin, m', c') ->
+       slice_horizon' ... <= POS_INF ->      (a horizon that also covers the Complement nodes)
+       exists B, forall b, B <= b -> exists m'',
+         take F env (oenv_of (pand e PSolid) a (Some b)) n (pslice e a (Some b)) c
+           = Some (outs, fin, m'', c').
+   Missing: expressions containing Complement (or an explicit solid).  Their machines carry the
+   window end in their state (MCompl eb e), so the open-ended and the bounded chain differ below
+   the clip as well; the proof here uses that for every other operator [compile] does not depend
+   on the window (compile_nsc) and only the clip and the leaf oracles have to be switched. *)
 Theorem prefix_of_bounded_partial : forall F env e a n c outs fin m' c',
   nsc e = true -> operands e <> [] ->
   take F env (oenv_of (pand e PSolid) a None) n (pslice e a None) c = Some (outs, fin, m', c') ->
@@ -1134,22 +1190,317 @@ Theorem prefix_of_bounded_partial : forall F env e a n c outs fin m' c',
     take F env (oenv_of (pand e PSolid) a (Some b)) n (pslice e a (Some b)) c
       = Some (outs, fin, toB b m', c').
 Proof.
-  intros F env e a n c outs fin m' c' Hn Hne H Hhor. unfold slice_horizon in Hhor.
-  rewrite (pslice_shape e a None Hn) in H, Hhor.
-  set (masks := map pis_mask (operands e) ++ [true]) in *.
-  set (ms := map (fun s => compile s a None) (operands e)) in *.
-  assert (Hform : oform a (MInter masks IInit (map (fun m => (s0, m)) ms ++ [(s0, MOnce (Some (solo a)))]))).
-  { apply of_init.
-    - unfold ms. destruct (operands e); [congruence|discriminate].
-    - unfold ms, masks. rewrite map_length, <- (map_length pis_mask). apply emit_sel_solid.
-      destruct (operands e); [congruence|discriminate]. }
-  change (mkI (Some a) None Plain) with (solo a) in H, Hhor.
-  pose proof (take_switch env _ a F n c _ outs fin m' c' Hform H) as Hsw.
+  intros F env e a n c outs fin m' c' Hn Hne H Hhor.
   destruct (agree_eventually (pand e PSolid) a c') as [B2 HB2].
-  exists (Z.max B2 (phor env (oenv_of (pand e PSolid) a None) F n
-                      (MInter masks IInit (map (fun m => (s0, m)) ms ++ [(s0, MOnce (Some (solo a)))])) c)).
-  intros b Hb. rewrite (pslice_shape e a (Some b) Hn). fold masks ms.
-  eapply pull_noninterference; [|apply HB2; lia].
-  specialize (Hsw b ltac:(lia) Hhor). cbn [toB] in Hsw. rewrite swl_last in Hsw. exact Hsw.
+  exists (Z.max B2 (slice_horizon F env e a n c)). intros b Hb.
+  apply (prefix_of_bounded_explicit F env e a n c outs fin m' c' Hn Hne H Hhor b); [lia|].
+  apply HB2. lia.
 Qed.
 Print Assumptions prefix_of_bounded_partial.
+
+(* non-vacuity: (working hours - a weekly day off) & a buffered 12-hourly pattern, open end:
+   5 items exist, the horizon is 1443601; the last source item read (the next weekly day off,
+   held as current_subtractor) starts at 1555200, and the bounded query ending there gives the
+   same items, reads and state *)
+Definition ex_lazy : pexpr :=
+  pand (PDiff (PPer 0 32400 86400 28800) [PPer 1 (-259200) 604800 86400])
+       (PBuf (PPer 3 0 43200 3600) 10000 20000).
+
+Example prefix_of_bounded_partial_ex :
+  nsc ex_lazy = true /\ operands ex_lazy <> [] /\
+  slice_horizon 60 [] ex_lazy 1000000 5 [] = 1443601 /\ 1443601 <= POS_INF /\
+  exists outs m' c',
+    take 60 [] (oenv_of (pand ex_lazy PSolid) 1000000 None) 5 (pslice ex_lazy 1000000 None) []
+      = Some (outs, false, m', c') /\
+    length outs = 5%nat /\
+    take 60 [] (oenv_of (pand ex_lazy PSolid) 1000000 (Some 1555200)) 5
+         (pslice ex_lazy 1000000 (Some 1555200)) []
+      = Some (outs, false, toB 1555200 m', c').
+Proof.
+  split; [reflexivity|]. split; [discriminate|]. split; [vm_compute; reflexivity|].
+  split; [vm_compute; discriminate|].
+  eexists. eexists. eexists. split; [vm_compute; reflexivity|].
+  split; [reflexivity|vm_compute; reflexivity].
+Qed.
+
+(* The side condition cannot be dropped for window ends below the sentinel: with an unbounded
+   stored event the open-ended slice yields an item with end = None, every bounded slice an
+   item with end = b.  (Not a defect: C14 speaks of recurring sources, whose items are
+   bounded.)  The statement "there is B < POS_INF such that all b in [B, POS_INF) give the
+   same first n items" is false of the model: *)
+Theorem prefix_of_bounded_refuted :
+  exists F env e a n c outs m' c',
+    nsc e = true /\ operands e <> [] /\ wfx e = true /\
+    take F env (oenv_of (pand e PSolid) a None) n (pslice e a None) c = Some (outs, false, m', c') /\
+    POS_INF < slice_horizon F env e a n c /\
+    forall B, B < POS_INF -> exists b, B <= b < POS_INF /\
+      exists outs' fin' m'' c'',
+        take F env (oenv_of (pand e PSolid) a (Some b)) n (pslice e a (Some b)) c
+          = Some (outs', fin', m'', c'') /\ outs' <> outs.
+Proof.
+  exists 10%nat, [], (PSto 0 [mkI (Some 0) None Plain]), 0, 1%nat, [].
+  eexists. eexists. eexists.
+  split; [reflexivity|]. split; [discriminate|]. split; [reflexivity|].
+  split; [vm_compute; reflexivity|]. split; [vm_compute; reflexivity|].
+  intros B HB. exists (POS_INF - 1). split; [lia|].
+  eexists. eexists. eexists. eexists. split; [vm_compute; reflexivity|discriminate].
+Qed.
+Print Assumptions prefix_of_bounded_refuted.
+
+(* ==================================================================================== *)
+(* 4. fuel monotonicity of the interpreter, and with it: the open-ended slice against the LIST
+   model of the bounded query *)
+
+Section Mono.
+Variable o : oenv.
+
+Definition pmono {A} (p p' : prog A) : Prop := forall r, run o p = Some r -> run o p' = Some r.
+
+Lemma pmono_refl : forall A (p : prog A), pmono p p.
+Proof. intros A p r H. exact H. Qed.
+
+Lemma pmono_fail : forall A (p' : prog A), pmono Fail p'.
+Proof. intros A p' r H. discriminate. Qed.
+
+Lemma pmono_bind : forall A B (p p' : prog A) (f f' : A -> prog B),
+  pmono p p' -> (forall x, pmono (f x) (f' x)) -> pmono (bind p f) (bind p' f').
+Proof.
+  intros A B p p' f f' Hp Hf r H. rewrite run_bind in *.
+  destruct (run o p) as [x|] eqn:E; [|discriminate]. rewrite (Hp x E). apply Hf. exact H.
+Qed.
+
+Section Loops.
+Variables nx nx' : mach -> prog step.
+Hypothesis Hnx : forall m, pmono (nx m) (nx' m).
+
+Lemma uinit_mono : forall hs, pmono (uinit nx hs) (uinit nx' hs).
+Proof.
+  induction hs as [|[h m] r IH]; cbn [uinit]; [apply pmono_refl|].
+  apply pmono_bind; [apply Hnx|]. intro xm. apply pmono_bind; [exact IH|]. intro. apply pmono_refl.
+Qed.
+
+Lemma unext_mono : forall c hs, pmono (unext nx c hs) (unext nx' c hs).
+Proof.
+  intros [|i|] hs; cbn [unext]; [| |apply pmono_refl].
+  - apply pmono_bind; [apply uinit_mono|]. intro. apply pmono_refl.
+  - destruct (nth_error hs i) as [[h m]|]; [|apply pmono_refl].
+    apply pmono_bind; [apply Hnx|]. intro. apply pmono_refl.
+Qed.
+
+Lemma padv_mono : forall sm, pmono (padv nx sm) (padv nx' sm).
+Proof.
+  intro sm. unfold padv. destruct (exh (fst sm)); [apply pmono_refl|].
+  apply pmono_bind; [apply Hnx|]. intro. apply pmono_refl.
+Qed.
+
+Lemma iinit_mono : forall ss, pmono (iinit nx ss) (iinit nx' ss).
+Proof.
+  induction ss as [|sm r IH]; cbn [iinit]; [apply pmono_refl|].
+  apply pmono_bind; [apply padv_mono|]. intro. apply pmono_bind; [exact IH|]. intro. apply pmono_refl.
+Qed.
+
+Lemma padv_first_mono : forall p sel ss i, pmono (padv_first nx p sel i ss) (padv_first nx' p sel i ss).
+Proof.
+  intros p sel ss. induction ss as [|sm r IH]; intro i; cbn [padv_first]; [apply pmono_refl|].
+  destruct (sel i && p (fst sm)).
+  - apply pmono_bind; [apply padv_mono|]. intro. apply pmono_refl.
+  - apply pmono_bind; [apply IH|]. intro. apply pmono_refl.
+Qed.
+
+Lemma iloop_mono : forall masks f f', (f <= f')%nat -> forall entry ss,
+  pmono (iloop f nx masks entry ss) (iloop f' nx' masks entry ss).
+Proof.
+  intros masks. induction f as [|f IH]; intros f' Hle entry ss; [apply pmono_fail|].
+  destruct f' as [|f']; [lia|]. cbn [iloop].
+  destruct (match entry with
+            | Some e => Some e
+            | None => match all_cur (map fst ss) with
+                      | Some act => Some (max_start act, min_end act, 0%nat)
+                      | None => None
+                      end
+            end) as [[[os oe] j]|]; [|apply pmono_refl].
+  destruct (if os <? oe then efind oe (emit_sel masks) 0 j ss else None) as [[i c]|]; [apply pmono_refl|].
+  apply pmono_bind; [apply padv_first_mono|]. intro r1.
+  apply pmono_bind; [destruct (snd r1); [apply pmono_refl|apply padv_first_mono]|]. intro r2.
+  destruct (snd r2); [apply IH; lia|apply pmono_refl].
+Qed.
+
+Lemma inext_mono : forall masks f f', (f <= f')%nat -> forall c ss,
+  pmono (inext f nx masks c ss) (inext f' nx' masks c ss).
+Proof.
+  intros masks f f' Hle [|os oe i|] ss; cbn [inext]; [| |apply pmono_refl].
+  - apply pmono_bind; [apply iinit_mono|]. intro ss'.
+    destruct (forallb _ ss'); [apply pmono_refl|apply iloop_mono; exact Hle].
+  - apply iloop_mono; exact Hle.
+Qed.
+
+Lemma dskipM_mono : forall cursor f f', (f <= f')%nat -> forall cs sub,
+  pmono (dskipM f nx cursor cs sub) (dskipM f' nx' cursor cs sub).
+Proof.
+  intros cursor. induction f as [|f IH]; intros f' Hle cs sub; [apply pmono_fail|].
+  destruct f' as [|f']; [lia|]. cbn [dskipM]. destruct cs as [s|]; [|apply pmono_refl].
+  destruct (fend s <? cursor); [|apply pmono_refl].
+  apply pmono_bind; [apply Hnx|]. intro. apply IH. lia.
+Qed.
+
+Lemma dloop_mono : forall f f', (f <= f')%nat -> forall md cs src sub,
+  pmono (dloop f nx md cs src sub) (dloop f' nx' md cs src sub).
+Proof.
+  induction f as [|f IH]; intros f' Hle md cs src sub; [apply pmono_fail|].
+  destruct f' as [|f']; [lia|]. assert (Hle' : (f <= f')%nat) by lia.
+  cbn [dloop]. destruct md as [|ev cursor|ev oe|ev cursor|ev cursor].
+  - apply pmono_bind; [apply Hnx|]. intro xm. destruct (fst xm) as [ev|]; [|apply pmono_refl].
+    destruct cs as [s|]; [|apply pmono_refl].
+    apply pmono_bind; [apply dskipM_mono; exact Hle'|]. intro cm.
+    destruct (fst cm); [apply IH; exact Hle'|apply pmono_refl].
+  - destruct cs as [s|]; [|apply IH; exact Hle'].
+    destruct (fstart s <=? fend ev); [|apply IH; exact Hle']. cbv zeta.
+    destruct (Z.max cursor (fstart s) <? Z.min (fend ev) (fend s)); [|apply IH; exact Hle'].
+    destruct (cursor <? Z.max cursor (fstart s)); [apply pmono_refl|apply IH; exact Hle'].
+  - destruct (oe >=? fend ev); apply IH; exact Hle'.
+  - destruct cs as [s|]; [|apply IH; exact Hle'].
+    destruct (fend s <=? fend ev); [|apply IH; exact Hle'].
+    apply pmono_bind; [apply Hnx|]. intro. apply IH; exact Hle'.
+  - destruct (cursor <? fend ev); [apply pmono_refl|apply IH; exact Hle'].
+Qed.
+
+Lemma dnext_mono : forall f f', (f <= f')%nat -> forall c cs src sub,
+  pmono (dnext f nx c cs src sub) (dnext f' nx' c cs src sub).
+Proof.
+  intros f f' Hle [| |ev oe|] cs src sub; cbn [dnext]; try (apply dloop_mono; exact Hle).
+  - apply pmono_bind; [apply Hnx|]. intro. apply dloop_mono; exact Hle.
+  - apply pmono_refl.
+Qed.
+
+Lemma cloop_mono : forall sb eb e f f', (f <= f')%nat -> forall entry cursor m,
+  pmono (cloop f nx sb eb e entry cursor m) (cloop f' nx' sb eb e entry cursor m).
+Proof.
+  intros sb eb e. induction f as [|f IH]; intros f' Hle entry cursor m; [apply pmono_fail|].
+  destruct f' as [|f']; [lia|]. assert (Hle' : (f <= f')%nat) by lia.
+  cbn [cloop]. destruct entry as [se|].
+  - cbv zeta. destruct (Z.max cursor se >? eb); [apply pmono_refl|apply IH; exact Hle'].
+  - apply pmono_bind; [apply Hnx|]. intro xm. cbv zeta. destruct (fst xm) as [x|]; [|apply pmono_refl].
+    destruct (fend x <? sb); [apply IH; exact Hle'|].
+    destruct (fstart x >? eb); [apply pmono_refl|].
+    destruct (Z.min (fend x) eb <=? cursor); [apply IH; exact Hle'|].
+    destruct (Z.max (fstart x) sb >? cursor); [apply pmono_refl|apply IH; exact Hle'].
+Qed.
+
+Lemma floop_mono : forall keep fl f f', (f <= f')%nat -> forall m,
+  pmono (floop f nx keep fl m) (floop f' nx' keep fl m).
+Proof.
+  intros keep fl. induction f as [|f IH]; intros f' Hle m; [apply pmono_fail|].
+  destruct f' as [|f']; [lia|]. cbn [floop].
+  apply pmono_bind; [apply Hnx|]. intro xm. destruct (fst xm) as [x|]; [|apply pmono_refl].
+  destruct (keep x); [apply pmono_refl|apply IH; lia].
+Qed.
+End Loops.
+
+Variable env : fenv.
+
+Lemma next_mono : forall F F', (F <= F')%nat -> forall m, pmono (next F env m) (next F' env m).
+Proof.
+  induction F as [|F IH]; intros F' Hle m; [apply pmono_fail|].
+  destruct F' as [|F']; [lia|]. assert (Hle' : (F <= F')%nat) by lia.
+  pose proof (IH F' Hle') as Hnx. cbn [next]. cbv zeta.
+  destruct m as [id k|x|c hs|masks c ss|c cs src sub|sb eb e c cursor s|fl s|before after s].
+  - apply pmono_refl.
+  - apply pmono_refl.
+  - apply unext_mono; exact Hnx.
+  - apply inext_mono; [exact Hnx|exact Hle'].
+  - apply dnext_mono; [exact Hnx|exact Hle'].
+  - destruct c; [apply cloop_mono; [exact Hnx|exact Hle']|apply cloop_mono; [exact Hnx|exact Hle']|apply pmono_refl].
+  - apply floop_mono; [exact Hnx|exact Hle'].
+  - apply pmono_bind; [apply Hnx|]. intro. apply pmono_refl.
+Qed.
+
+Lemma ptake_mono : forall F F', (F <= F')%nat -> forall n m,
+  pmono (ptake F env n m) (ptake F' env n m).
+Proof.
+  intros F F' Hle. induction n as [|n IH]; intro m; cbn [ptake]; [apply pmono_refl|].
+  apply pmono_bind; [apply next_mono; exact Hle|]. intro xm.
+  destruct (fst xm); [|apply pmono_refl]. apply pmono_bind; [apply IH|]. intro. apply pmono_refl.
+Qed.
+
+(* a machine that yields exactly L: its first n items are the first n items of L *)
+Lemma ptake_runs : forall n F m L res, runs env o m L ->
+  run o (ptake F env n m) = Some res ->
+  fst (fst res) = firstn n L /\
+  (snd (fst res) = true -> fst (fst res) = L) /\
+  (snd (fst res) = false -> length (fst (fst res)) = n).
+Proof.
+  induction n as [|n IH]; intros F m L res Hr H.
+  - cbn in H. injection H as <-. cbn. split; [reflexivity|]. split; [discriminate|reflexivity].
+  - cbn [ptake] in H. rewrite run_bind in H.
+    destruct (run o (next F env m)) as [xm|] eqn:E; [|discriminate].
+    assert (Hdet : forall r', steps_to env o m r' -> xm = r').
+    { intros r' [N HN]. specialize (HN (Nat.max F N) ltac:(lia)).
+      pose proof (next_mono F (Nat.max F N) ltac:(lia) m xm E) as E'. congruence. }
+    inversion Hr as [? m1 Hs|? m1 x l Hs Hrl]; subst.
+    + rewrite (Hdet _ Hs) in H. cbn in H. injection H as <-. cbn.
+      split; [reflexivity|]. split; [reflexivity|discriminate].
+    + rewrite (Hdet _ Hs) in H. cbn [fst snd] in H. rewrite run_bind in H.
+      destruct (run o (ptake F env n m1)) as [r2|] eqn:E2; [|discriminate].
+      cbn in H. injection H as <-. cbn [fst snd firstn length].
+      destruct (IH F m1 l r2 Hrl E2) as [H1 [H2 H3]].
+      split; [f_equal; exact H1|]. split; [intro Ht; f_equal; apply H2; exact Ht|].
+      intro Hf. f_equal. apply H3. exact Hf.
+Qed.
+
+End Mono.
+
+(* whatever fuel [take] was given: if it returned, it returned the first n items of the list
+   model of the bounded query (every operator) *)
+Theorem bounded_take_is_list_prefix : forall F env o e a b n c outs fin m' c',
+  wfx e = true -> pos_periods e = true -> leaves_ok o e a (Some b) ->
+  take F env o n (pslice e a (Some b)) c = Some (outs, fin, m', c') ->
+  outs = firstn n (lslice env e a b) /\
+  (fin = true -> outs = lslice env e a b) /\
+  (fin = false -> length outs = n).
+Proof.
+  intros F env o e a b n c outs fin m' c' Hw Hp Hl H. unfold take in H.
+  apply exec_run in H.
+  exact (ptake_runs o env n F _ _ (outs, fin, m') (pull_eq_list_slice_diff env o e a b Hw Hp Hl) H).
+Qed.
+Print Assumptions bounded_take_is_list_prefix.
+
+Lemma wfx_operands : forall e, wfx e = true -> operands e <> [].
+Proof.
+  destruct e; simpl; intro H; try discriminate.
+  apply andb_prop in H as [H _]. destruct es; [discriminate H|discriminate].
+Qed.
+
+(* C14 end to end: the n items islice(e[a:], n) delivers on infinite sources are the first n
+   items the LIST model (the sweeps of Model/Sweeps.v) computes for e[a:b], for every
+   sufficiently large b.  [Hleaves] says the leaf ids of e are used consistently (every leaf
+   is the oracle registered under its id). *)
+Theorem open_slice_is_list_prefix : forall F env e a n c outs m' c',
+  nsc e = true -> wfx e = true -> pos_periods e = true ->
+  (forall b, leaves_ok (oenv_of (pand e PSolid) a (Some b)) e a (Some b)) ->
+  take F env (oenv_of (pand e PSolid) a None) n (pslice e a None) c = Some (outs, false, m', c') ->
+  slice_horizon F env e a n c <= POS_INF ->
+  exists B, forall b, B <= b -> outs = firstn n (lslice env e a b) /\ length outs = n.
+Proof.
+  intros F env e a n c outs m' c' Hn Hw Hp Hleaves H Hhor.
+  destruct (prefix_of_bounded_partial F env e a n c outs false m' c' Hn (wfx_operands e Hw) H Hhor)
+    as [B HB].
+  exists B. intros b Hb.
+  destruct (bounded_take_is_list_prefix F env _ e a b n c outs false _ c' Hw Hp (Hleaves b) (HB b Hb))
+    as [H1 [_ H3]].
+  split; [exact H1|apply H3; reflexivity].
+Qed.
+Print Assumptions open_slice_is_list_prefix.
+
+Example open_slice_is_list_prefix_ex :
+  nsc ex_lazy = true /\ wfx ex_lazy = true /\ pos_periods ex_lazy = true /\
+  (forall b, leaves_ok (oenv_of (pand ex_lazy PSolid) 1000000 (Some b)) ex_lazy 1000000 (Some b)) /\
+  slice_horizon 60 [] ex_lazy 1000000 5 [] <= POS_INF /\
+  firstn 5 (lslice [] ex_lazy 1000000 1600000) =
+    [mkI (Some 1070000) (Some 1098000) Plain; mkI (Some 1156400) (Some 1184400) Plain;
+     mkI (Some 1242800) (Some 1270800) Plain; mkI (Some 1329200) (Some 1357200) Plain;
+     mkI (Some 1415600) (Some 1443600) Plain].
+Proof.
+  split; [reflexivity|]. split; [reflexivity|]. split; [reflexivity|].
+  split; [intro b; simpl; repeat split; intro k; reflexivity|].
+  split; [vm_compute; discriminate|vm_compute; reflexivity].
+Qed.
